@@ -371,7 +371,7 @@ func runC06(t *testing.T, planAny any, res *simnet.Result) {
 		// ---- the first two updates of an origin nobody has heard of reach x in the same instant over two different
 		// neighbours, the older one possibly handled second; goroutines are held back at random lock sites (real
 		// time).  Whatever the interleaving, x's picture of the origin must end up being the newer update's.
-		if p.Twins > 0 && len(res.Violations) == 0 {
+		if p.Twins > 0 && len(res.Violations) == 0 && os.Getenv("VERIF_NO_REALTIME") == "" {
 			installYields(res.Seed, 0, "none")
 			stopNoise := installLockNoise(res.Seed, 0.5)
 			l2, sess2, err := m.AttachScripted(x, simnet.LinkCfg{Name: "S2", Latency: time.Millisecond + 911*time.Nanosecond, FIFO: true}, "zt", 1)
